@@ -415,4 +415,7 @@ def run(model, R):
     R.guard('FCBO', None, 'fast_generate_from', fcbo, model, R, 'algorithms.fcbo.fast_generate_from', 'P')
     R.guard('FCBO', None, 'fcbo_dual', fcbo, model, R, 'algorithms.fcbo.fcbo_dual', 'O')
     R.guard('WRAPPER', None, 'wrappers', wrappers, model, R)
+    # every derivation goes through the closures that Vectors._pair_with builds (C01's rules for them are a dependency)
+    from . import c01
+    R.guard('WIRING', None, '_pair_with closures', c01.closure_rules, model, R)
     return __doc__.strip()
